@@ -13,9 +13,12 @@ import (
 
 	protocol "github.com/hujm2023/go-sms-protocol"
 	"github.com/hujm2023/go-sms-protocol/cmpp"
+	"github.com/hujm2023/go-sms-protocol/cmpp/cmpp20"
 	"github.com/hujm2023/go-sms-protocol/packet"
 	"github.com/hujm2023/go-sms-protocol/sgip"
+	"github.com/hujm2023/go-sms-protocol/sgip/sgip12"
 	"github.com/hujm2023/go-sms-protocol/smgp"
+	"github.com/hujm2023/go-sms-protocol/smgp/smgp30"
 	"github.com/hujm2023/go-sms-protocol/smpp"
 
 	"verif/sim/core"
@@ -117,7 +120,22 @@ func genOptFor(c *core.Chooser) spec.GenOpt {
 	return o
 }
 
+// gatewayLogsIn: before a gateway submits anything it has logged in - with the library's own constructors. Whatever
+// they leave behind in the process (an account remembered "as the SP id", a cached digest) must not show up in the
+// PDUs encoded afterwards. Every run of interop and relay starts with it; the first run of a worker process is the
+// first use of those constructors in that process.
+func gatewayLogsIn(r *core.Run) {
+	acct := fmt.Sprintf("9%05d", r.Cfg.Index%100000)
+	r.Call("login constructors", func() {
+		_ = cmpp20.NewConnect(acct, "secret", 1)
+		_ = smgp30.NewLogin(acct, "secret", 1)
+		_ = sgip12.NewBind(acct, "secret", 1, 1)
+		_ = cmpp.GenConnectAuth(acct, "secret", "0101000000")
+	})
+}
+
 func runInterop(r *core.Run) {
+	gatewayLogsIn(r)
 	c := r.C
 	sp := Spec()
 	if strings.HasPrefix(r.Cfg.Mode, "count-sweep") {
